@@ -260,7 +260,7 @@ def gen_C03(rng, tier):
     # the objects a field hands out are values: a generator / identity modified in place must not change
     # what the next call returns
     for (p, n) in small[:60] + [(5, 1), (7, 1), (11, 1), (13, 1), (31, 1), (101, 1)]:
-        for d in {field_desc(p, n)}:
+        for d in sorted({field_desc(p, n)} | ({field_desc(p, n, force_ext=True)} if (p, n) in conway_db() else set())):
             L.append("hist %s %s 1 | e0=gen@0 | mult e0 e0 | e1=gen@0 | setu e1 1 | e2=gen@0 | e3=one@0 | add e3 e3 | e4=one@0 | e5=zero@0 | add e5 e4 | e6=zero@0 | eq e0 e2" % (d, HDR_DEFAULT))
     return L
 
@@ -747,6 +747,35 @@ def bspec(rng, order=None, names=("X", "Y"), gens="-"):
     return "B:%s:%s:%s:%s" % (order or rng.choice(ORDERS), hexs(names[0]), hexs(names[1]), gens)
 
 
+def overflow_cases(rng, n):
+    """exponent overflow in ANY pair of terms of a product (not only in the leading terms), for every order"""
+    L = []
+    for _ in range(n):
+        desc = pick_field(rng, small=0.9, mid=0.1)
+        h = H(rng, desc, bspec=bspec(rng))
+        def _poly(bigpos):
+            terms = {}
+            nt = rng.randrange(1, 4)
+            for i in range(nt):
+                dx, dy = rng.randrange(0, 4), rng.randrange(0, 4)
+                if i == bigpos:
+                    bigv = rng.choice([2 ** 63, 2 ** 63 - 1, 2 ** 63 + 1, 2 ** 62, 2 ** 64 - 1, 2 ** 64 - 2, 2 ** 32])
+                    if rng.random() < 0.5:
+                        dx = bigv
+                    else:
+                        dy = bigv
+                terms[(dx, dy)] = rand_elem(desc, rng, special=0)
+            return "/".join("%d:%d:%s" % (k[0], k[1], v) for k, v in terms.items())
+        f = h.newb(); h.ops.append("%s=map@0 %s" % (f, _poly(rng.randrange(0, 3))))
+        g = h.newb(); h.ops.append("%s=map@0 %s" % (g, _poly(rng.choice([0, 1, 2, 5]))))
+        for (a, b) in [(f, f), (f, g), (g, f)]:
+            r = h.newb(); h.ops.append("%s=times %s %s" % (r, a, b)); h.ops.append("obs %s" % r)
+        r = h.newb(); h.ops.append("%s=pow %s %d" % (r, f, rng.choice([2, 2, 3]))); h.ops.append("obs %s" % r)
+        c = h.newb(); h.ops.append("%s=copy %s" % (c, f)); h.ops.append("mult %s %s" % (c, g)); h.ops.append("obs %s" % c)
+        L.append(h.line())
+    return L
+
+
 def gen_C08(rng, tier):
     L = []
     n = 1500 if tier == "thorough" else 250
@@ -820,6 +849,7 @@ def gen_C08(rng, tier):
         if rng.random() < 0.3:
             r2 = h.newb(); h.ops.append("%s=times %s %s" % (r2, f, f)); h.ops.append("obs %s" % r2)
         L.append(h.line())
+    L += overflow_cases(rng, 200 if tier == "thorough" else 50)
     for desc in fields(SMALL_Q[:9]):
         h = H(rng, desc, bspec=bspec(rng))
         f, g = h.bpoly(nterms=5, box=4), h.bpoly(nterms=4, box=3)
@@ -1429,6 +1459,7 @@ def gen_C17(rng, tier):
     L = []
     big = tier == "thorough"
     L += gen_setvar(rng, 400 if big else 80)
+    L += overflow_cases(rng, 80 if big else 20)
     # (a) invalid requests and sticky chains, snapshot after every op
     for _ in range(900 if big else 170):
         desc = pick_field(rng, small=0.7, mid=0.25)
